@@ -298,6 +298,9 @@ def queries(root):
         if node is None:
             continue
         broken = node.broken_base or any(a.broken_base for a in node.ancestors())
+        # enumeration through the iterating operators terminates (content judged through count/select below)
+        qs.append(("terminates configClasses " + ">>".join(p), 'count ("true" configClasses (%s))' % sqf_path(p), None))
+        qs.append(("terminates configProperties " + ">>".join(p), 'count (configProperties [%s])' % sqf_path(p), None))
         for en in ENTRIES:
             e = lookup(node, en)
             own = en.lower() in node.entries
